@@ -266,7 +266,7 @@ func sampleConc(cr *concRun) {
 
 // TestConcurrentAllocateOnly is family F1.
 func TestConcurrentAllocateOnly(t *testing.T) {
-	rounds := run.Pick(250, 3000)
+	rounds := concRounds(t, run.Pick(250, 3000))
 	for round := 0; round < rounds; round++ {
 		rng := run.SubRand("f1", round)
 		g := concGeom(rng, 1)
@@ -331,7 +331,7 @@ func TestConcurrentAllocateOnly(t *testing.T) {
 
 // TestConcurrentMixed is family F2.
 func TestConcurrentMixed(t *testing.T) {
-	rounds := run.Pick(250, 3000)
+	rounds := concRounds(t, run.Pick(250, 3000))
 	for round := 0; round < rounds; round++ {
 		rng := run.SubRand("f2", round)
 		g := concGeom(rng, 2)
@@ -521,7 +521,7 @@ func subModel(weak bool) porcupine.Model {
 
 // TestConcurrentSameSubscriber is family F3.
 func TestConcurrentSameSubscriber(t *testing.T) {
-	rounds := run.Pick(500, 6000)
+	rounds := concRounds(t, run.Pick(500, 6000))
 	strict, weak := subModel(false), subModel(true)
 	for round := 0; round < rounds; round++ {
 		rng := run.SubRand("f3", round)
@@ -600,4 +600,15 @@ func TestConcurrentSameSubscriber(t *testing.T) {
 		})
 		sampleConc(cr)
 	}
+}
+
+// concRounds: the preflight child runs a third of the rounds; the parent skips the family if the child crashed.
+func concRounds(t *testing.T, n int) int {
+	if child {
+		return n/3 + 1
+	}
+	if skipConcurrent {
+		t.Skip("concurrent workload is process-fatal (reported by the preflight)")
+	}
+	return n
 }
